@@ -152,6 +152,10 @@ func genBody(g *vh.Gen, o Opts, from string, tos []string) []string {
 			ls = append(ls, "From: Someone Else <other@elsewhere.org>")
 		case 2:
 			ls = append(ls, "From: not an address")
+		case 3: // encoded-words in display names, in charsets beyond UTF-8; quoted names with a comma
+			ls = append(ls, "From: "+g.Pick("=?koi8-r?B?8NLJ18XU?= <hdr@from.example>", "=?windows-1252?Q?Ren=E9e?= <hdr@from.example>",
+				"=?iso-8859-15?Q?J=FCrgen_=A4?= <hdr@from.example>", "=?utf-8?q?Doe=2C_John?= <hdr@from.example>",
+				"\"Doe, John\" <hdr@from.example>", "=?gb2312?B?1tDOxA==?= <hdr@from.example>", "=?x-unknown?Q?abc?= <hdr@from.example>"))
 		default:
 			ls = append(ls, "From: <"+from+">")
 		}
@@ -160,12 +164,15 @@ func genBody(g *vh.Gen, o Opts, from string, tos []string) []string {
 		case 1:
 			ls = append(ls, "To: List A <lista@x.org>, b@y.org")
 		case 2:
-			ls = append(ls, "To: ;;broken")
+			ls = append(ls, g.Pick("To: ;;broken", "To: =?koi8-r?B?8NLJ18XU?= <to1@hdr.example>, =?iso-8859-1?Q?Andr=E9?= <to2@hdr.example>",
+				"To: to1@hdr.example to2@hdr.example", "To: Team: to1@hdr.example, to2@hdr.example;", "To: undisclosed-recipients:;",
+				"To: =?windows-1252?Q?Ren=E9e?= <to1@hdr.example>"))
 		default:
 			ls = append(ls, "To: "+strings.Join(tos, ", "))
 		}
 		if g.Chance(0.8) {
-			ls = append(ls, "Subject: "+g.Pick("hello", "Re: test 1", "=?utf-8?q?caf=C3=A9?=", ""))
+			ls = append(ls, "Subject: "+g.Pick("hello", "Re: test 1", "=?utf-8?q?caf=C3=A9?=", "", "=?koi8-r?B?8NLJ18XU?=", "=?iso-8859-1?Q?caf=E9?= au lait",
+				"=?windows-1252?Q?=80uro?=", "=?utf-8?B?4pyT?= =?utf-8?B?4pyT?=", "=?x-unknown?Q?abc?="))
 		}
 		if g.Chance(0.05) {
 			ls = append(ls, "Broken header without colon")
